@@ -23,6 +23,7 @@ and the unstopped ARG at absorbing two-locus states is QCs_absorbing. Partial: P
 This file restates the theorems the property rests on (full statements; proofs are in PGProofs/).
 Generated once by harness/mkprops.py from harness/props_table.py + PGProperties/extra/C04.lean.in; committed as source.
 -/
+import PGProofs.TwoLocusInit
 import PGProofs.DriverPath
 import PGProofs.Assembly
 import PGProofs.Bridge
@@ -34,6 +35,18 @@ set_option pp.fieldNotation.generalized false
 
 namespace PG.C04
 open PG
+
+/-- two loci: from the all-unlinked start every state with n lineages at both loci is reached (zero-rate edges included), for every D -/
+theorem two_locus_all_visited : ∀ {D : ℕ} [NeZero D] (ts : Fin D → ℚ) (mig : Fin D → Fin D → ℚ) (r : ℚ) (n fuel : ℕ) (G : Graph), 2 ≤ n → bfs (transit Model.kingman (mkEpoch ts mig r)) (initialState 2 D 1 n) fuel = some G → ∀ (c : Fin D × LCls → ℕ), ∑ d, (c (d, LCls.L) + c (d, LCls.U1)) = n → ∑ d, (c (d, LCls.L) + c (d, LCls.U2)) = n → enc2 c ∈ G.visited := @PG.TwoLocusInit.two_locus_all_visited
+
+/-- two-locus alpha is uniform over exactly the visited states matching the sample and the linkage -/
+theorem two_locus_alpha : type_of% @PG.TwoLocusInit.two_locus_alpha := @PG.TwoLocusInit.two_locus_alpha   -- (printed statement does not re-elaborate; see the source lemma)
+
+/-- and sums to one -/
+theorem two_locus_alpha_sum : ∀ {D : ℕ} [NeZero D] (ts : Fin D → ℚ) (mig : Fin D → Fin D → ℚ) (r : ℚ) (n fuel : ℕ) (G : Graph), 2 ≤ n → bfs (transit Model.kingman (mkEpoch ts mig r)) (initialState 2 D 1 n) fuel = some G → ∀ (nv : Fin D → ℕ), ∑ d, nv d = n → ∀ (u : ℕ), List.sum (alphaVec G.visited (List.ofFn nv) 2 u) = 1 := @PG.TwoLocusInit.two_locus_alpha_sum
+
+/-- documented: for n = 1 no state passes the test (alpha would be 0/0); the properties require n >= 2 -/
+theorem two_locus_n_one : ∀ {D : ℕ} [NeZero D] (ts : Fin D → ℚ) (mig : Fin D → Fin D → ℚ) (r : ℚ) (fuel : ℕ) (G : Graph), bfs (transit Model.kingman (mkEpoch ts mig r)) (initialState 2 D 1 1) fuel = some G → ∀ (nv : Fin D → ℕ), ∑ d, nv d = 1 → alphaVec G.visited (List.ofFn nv) 2 0 = List.map (fun x ↦ 0) G.visited := @PG.TwoLocusInit.two_locus_alpha_n_one
 
 /-- the dense generator the DRIVER builds equals rateEntry entry by entry -/
 theorem driver_matrix : ∀ (states : List State), List.Nodup states → ∀ (tr : List ((State × State) × ℚ)) (i j : ℕ), i < List.length states → j < List.length states → Array.getD (Array.getD (denseGen (List.length states) (sparseRows states tr)) i #[]) j 0 = rateEntry states tr i j := @PG.denseGen_sparseRows
@@ -111,6 +124,10 @@ theorem nonvacuous_bfs_two_locus :
 
 end PG.C04
 
+#print axioms PG.C04.two_locus_all_visited
+#print axioms PG.C04.two_locus_alpha
+#print axioms PG.C04.two_locus_alpha_sum
+#print axioms PG.C04.two_locus_n_one
 #print axioms PG.C04.driver_matrix
 #print axioms PG.C04.driver_matrix_is_codeMat
 #print axioms PG.C04.all_sample_configs_visited
